@@ -84,15 +84,16 @@ def digitsVal : List Char → Nat → Nat
   | [], acc => acc
   | c :: cs, acc => digitsVal cs (acc * 10 + (c.toNat - 48))
 
+def posInt (ds : List Char) : Option Int :=
+  if digitsVal ds 0 ≤ 9223372036854775807 then some (digitsVal ds 0 : Int) else none
+
+def negInt (ds : List Char) : Option Int :=
+  if digitsVal ds 0 ≤ 9223372036854775808 then some (-(digitsVal ds 0 : Int)) else none
+
 /-- `strconv.ParseInt(text, 10, 64)` on `[-+]? Digit+`; `none` = out of range. -/
-def parseInt (tx : List Char) : Option Int :=
-  let (neg, ds) := match tx with
-    | '-' :: r => (true, r)
-    | '+' :: r => (false, r)
-    | r => (false, r)
-  let n := digitsVal ds 0
-  if neg then (if n ≤ 9223372036854775808 then some (-(n : Int)) else none)
-  else (if n ≤ 9223372036854775807 then some (n : Int) else none)
+def parseInt : List Char → Option Int
+  | [] => posInt []
+  | c :: r => if c = '-' then negInt r else if c = '+' then posInt r else posInt (c :: r)
 
 /-- `strconv.ParseFloat` on `[+-]? Digit* '.' Digit* ([’Ee] IntConstant)?`: sign, all digits,
 decimal exponent; `none` = syntax error (no digit in the mantissa, `'` as exponent marker). -/
